@@ -418,6 +418,9 @@ pub fn execute(s: &ForScn, ctx: &mut Ctx) {
             match iter_generic(&mut r, cap) {
                 Ok((items, capped)) => {
                     check_items(ctx, "C14", "iter_shapes", &items, capped, s, lsite);
+                    // the same stream decoded record by record through its index is still "decoded to
+                    // exactly the geometry it encodes": C03 does not depend on the route
+                    check_items(ctx, "C03", "iter_shapes-with-index", &items, capped, s, lsite);
                     let after = world.borrow().log.iter().filter(|e| e.dev as usize == SHP && e.kind == OpKind::Seek).count();
                     ctx.stats.reach_n("seeks-during-indexed-iteration", (after - before) as u64);
                     // agreement with random access
@@ -440,7 +443,10 @@ pub fn execute(s: &ForScn, ctx: &mut Ctx) {
                         }
                     }
                 }
-                Err(p) => ctx.fail("C14", "panic", p.site(), format!("indexed iter_shapes: {}", p.text())),
+                Err(p) => {
+                    ctx.fail("C14", "panic", p.site(), format!("indexed iter_shapes: {}", p.text()));
+                    ctx.fail("C03", "panic", p.site(), format!("indexed iter_shapes: {}", p.text()));
+                }
             }
             // a random access that fails (wrong type requested) must not disturb what the index says:
             // a following iteration still yields one shape per entry, in index order
@@ -487,6 +493,31 @@ pub fn execute(s: &ForScn, ctx: &mut Ctx) {
                     }
                 }
                 Err(p) => ctx.fail("C14", "panic", p.site(), format!("two loops: {}", p.text())),
+            }
+        }
+        ctx.stats.absorb_world(&world.borrow());
+    }
+    if n >= 2 {
+        // one item taken, the iterator leaked (mem::forget: no destructor runs), then a second
+        // iteration on the same reader: the remaining entries, or all of them
+        let world = mk();
+        if let Open::Ok(mut r) = open(&world, true, s.rstack) {
+            let res = guarded(|| {
+                let mut it = r.iter_shapes();
+                let first = it.next().map(|x| x.map(|s| capture(&s)).map_err(|e| classify(&e)));
+                std::mem::forget(it);
+                let (rest, capped) = drain(r.iter_shapes(), cap);
+                (first, rest, capped)
+            });
+            match res {
+                Ok((first, rest, capped)) => {
+                    let fits = |from: usize| rest.len() == n - from && rest.iter().zip(s.recs[from..].iter()).all(|(it, rec)| matches!(it, Ok(g) if diff_foreign(&expected_of(rec), rec.m_present, g).is_none()));
+                    let first_ok = matches!(&first, Some(Ok(g)) if diff_foreign(&expected_of(&s.recs[0]), s.recs[0].m_present, g).is_none());
+                    if capped || !first_ok || !(fits(1) || fits(0)) {
+                        ctx.fail("C14", "count", format!("leaked-iterator:{}", lsite), format!("one item ({:?}), the iterator leaked, then {:?}: not the records of the remaining (or of all) index entries", first.as_ref().map(item_short), rest.iter().map(item_short).collect::<Vec<_>>()));
+                    }
+                }
+                Err(p) => ctx.fail("C14", "panic", p.site(), format!("leaked iterator: {}", p.text())),
             }
         }
         ctx.stats.absorb_world(&world.borrow());
